@@ -12,7 +12,11 @@
    3 the database version read is not the one this service saved last (0 if none)
    4 an additional bucket of this service does not return what this service put last
    5 crash (nil bucket)
-   6 concurrent savers (see Corr/C16.v) *)
+   6 concurrent savers (see Corr/C16.v)
+   7 a value handed to the service changed afterwards (see Corr/C16.v)
+   8 a Save REPORTED SUCCESS in the observation (whatever the key: also empty, nil,
+     over-long), but a later load / raw load of that key by the same service, before
+     the next successful save of it, does not return exactly that value *)
 From Coq Require Import List Arith Bool ZArith NArith.
 Import ListNotations.
 From Onet Require Import Base.Corr Api.Storage.
@@ -79,3 +83,32 @@ Section Check.
     end.
 End Check.
 
+
+(* ---- clause 8: driven by the OBSERVED outcome of Save alone ----------------
+   The reference of clauses 1-5 expects an error for keys bbolt refuses and is
+   then silent.  The property text is not: "a value a service saves under a key
+   is returned, equal, by every later load of that key by the same service".
+   So: whenever the implementation SAID the save succeeded, it owes the value. *)
+Definition sstate := list (nat * bytes * bytes).   (* newest first *)
+
+Fixpoint sfind (st : sstate) (s : nat) (k : bytes) : option bytes :=
+  match st with
+  | [] => None
+  | (s', k', v) :: r => if (s =? s') && bytes_eqb k k' then Some v else sfind r s k
+  end.
+
+Definition owes (st : sstate) (s : nat) (k : bytes) (got : res) : list nat :=
+  match sfind st s k with
+  | Some v => clause 8 (res_eqb got (RBytes v))
+  | None => []
+  end.
+
+Fixpoint swalk (st : sstate) (h : list (hop * res)) : list nat :=
+  match h with
+  | [] => []
+  | (HOp s (OSave k v), got) :: r =>
+      swalk (if res_eqb got ROk then (s, k, v) :: st else st) r
+  | (HOp s (OLoad k), got) :: r => owes st s k got ++ swalk st r
+  | (HOp s (OLoadRaw k), got) :: r => owes st s k got ++ swalk st r
+  | _ :: r => swalk st r            (* restarts keep what is owed *)
+  end.
